@@ -323,6 +323,16 @@ def nvRun : Option QState :=
   run (init 2 (fun _ => .ok) true)
     [.push 0, .w nvClock, .w nvClock, .w nvClock, .w nvClock, .w nvClock, .push 1, .push 2, .push 0, .push 1, .unpark 1]
 
+/-- The capacity in `c09_lost_only_if_cap_newer` is the *configured* one, and the bound is tight: a ring
+that is silently smaller than configured (the seeded cap at 64 MiB / size_of entry) is not a refinement.
+Witness: configured 3, effective 2 — the run of the 2-slot system displaces entry `(0,1)` with only two newer
+pushes behind it; in the 3-slot system the same events displace nothing. -/
+theorem c09_smaller_ring_violates :
+    (run (init 2 (fun _ => .ok) true) [.push 0, .w nvClock, .push 0, .push 0, .push 0]).map
+      (fun s => (displaced s.log, s.pushOrder.length, s.overflow)) = some ([(0, 1)], 4, 1) ∧
+    (run (init 3 (fun _ => .ok) true) [.push 0, .w nvClock, .push 0, .push 0, .push 0]).map
+      (fun s => (displaced s.log, s.pushOrder.length, s.overflow)) = some ([], 4, 0) := by decide
+
 example : (nvRun.map fun s => (s.ring, holding s.wpc, displaced s.log, s.overflow, s.pushOrder.length)) =
     some ([(0, 3), (1, 4)], [], [(1, 1), (2, 2)], 2, 5) := by decide
 
@@ -348,3 +358,4 @@ end Queue
 #print axioms Queue.c09_ring_bounded
 #print axioms Queue.c09_ring_is_newest
 #print axioms Queue.c09_spec_accepts
+#print axioms Queue.c09_smaller_ring_violates
